@@ -1,6 +1,7 @@
 //! One module per correspondence stream. `generate` writes case lines, `run_line` executes one
 //! case against the real crate and prints its canonicalised outcome.
 pub mod consts;
+pub mod crc;
 pub mod ser;
 
 pub use consts::dump_constants;
@@ -8,6 +9,7 @@ pub use consts::dump_constants;
 pub fn generate(stream: &str, seed: u64, n: usize, emit: &mut dyn FnMut(String)) {
 	match stream {
 		"ser" | "ser-valid" | "ser-mut" | "ser-sink" => ser::generate(stream, seed, n, emit),
+		"crc" => crc::generate(seed, n, emit),
 		_ => panic!("unknown stream {stream}"),
 	}
 }
@@ -17,6 +19,7 @@ pub fn run_line(line: &str) -> String {
 	let r = std::panic::catch_unwind(|| match cmd {
 		"" => Ok(String::new()),
 		"ser" => ser::run(line),
+		"crc" => crc::run(line),
 		_ => Err(format!("unknown stream {cmd}")),
 	});
 	match r {
